@@ -171,10 +171,20 @@ pub fn pd_moves(rng: &mut Rng, pd0: &PD, k: usize, allow_r1: bool, max_crossings
     let mut log = vec![];
     let mut has_r = false;
     for _ in 0..k {
-        match rng.below(if allow_r1 { 8 } else { 3 }) {
+        match rng.below(if allow_r1 { 10 } else { 3 }) {
             0 => { pd = random_relabel(rng, &pd); log.push("relabel edges".into()) }
             1 => { let p = rng.perm(pd.n()); pd = pd.permute_crossings(&p); log.push(format!("permute crossings {:?}", p)) }
             2 => { pd = pd.reverse_all(); log.push("reverse all orientations".into()) }
+            8 | 9 => {
+                // Reidemeister III on a triangular face
+                if pd.n() <= 12 {
+                    let fs: Vec<Vec<(usize, usize)>> = pd.faces().into_iter().filter(|f| f.len() == 3).collect();
+                    if !fs.is_empty() {
+                        let f = rng.choose(&fs).clone();
+                        if let Some(p) = pd.r3(&f) { pd = p; has_r = true; log.push(format!("R3 on the triangular face through crossings {:?}", f.iter().map(|d| d.0).collect::<Vec<_>>())) }
+                    }
+                }
+            }
             6 | 7 => {
                 // Reidemeister II across a common face (search-based, oracle-validated)
                 if pd.n() + 2 <= max_crossings && pd.n() > 0 && pd.n() <= 10 {
